@@ -206,7 +206,9 @@ class TrimeshPolyhedron(Domain):
         x_axis = torch.linspace(bounds[0], bounds[1], scaled_n, device=device)
         y_axis = torch.linspace(bounds[2], bounds[3], scaled_n, device=device)
         z_axis = torch.linspace(bounds[4], bounds[5], scaled_n, device=device)
-        points = torch.stack(torch.meshgrid(x_axis, y_axis, z_axis)).mT
+        points = torch.permute(
+            torch.stack(torch.meshgrid(x_axis, y_axis, z_axis)), (3, 2, 1, 0)
+        )
         return points.reshape(-1, 3)
 
     def _get_bounding_box_volume(self, bounds):
